@@ -967,8 +967,10 @@ class C04(Check):
         if kind == 2:
             return asyncio.run(run_scripted(case))
         if _DOUBLE_TIMEOUTS[0] >= 3:
-            # handshakes hang systematically (already reported three times): do not spend 36 s on each further case
-            return asyncio.run(run_e2e(case, 1.5))
+            # handshakes hang systematically (three pairs did not finish within 6 s and, retried, 30 s): further
+            # end-to-end cases are not run and count as hanging, otherwise a broken tree costs 36 s per case
+            case["_rec"] = None
+            return [-3]
         out = asyncio.run(run_e2e(case))
         if case["_rec"]["timed_out"]:
             # a loaded machine can stall a handshake: retry once with a generous limit (DESIGN.md section 8)
